@@ -417,10 +417,17 @@ def write_back(tree, related_classes, sites, only=None, keep=(), methods=()):
                             stale = True
                     if stale:
                         continue
-                    # a single use must not be carried into a loop or a nested scope (it would be evaluated again)
+                    # a single use must not be carried into a loop or a nested scope (it would be evaluated again), nor
+                    # past a statement that touches what the value is computed from (it may be changed in place)
                     if not (plain_attr or numeric[0]):
                         use = all_loads[0]
                         carried = False
+                        for s2 in blk[i + 1:]:
+                            if any(x is use for x in ast.walk(s2)):
+                                break
+                            if any(isinstance(x, ast.Name) and x.id in locals_used for x in ast.walk(s2)) \
+                                    or any(isinstance(x, (ast.Yield, ast.YieldFrom, ast.Await)) for x in ast.walk(s2)):
+                                carried = True
                         for s2 in blk[i + 1:]:
                             for holder in ast.walk(s2):
                                 if isinstance(holder, (ast.For, ast.While, ast.Lambda, ast.ListComp, ast.GeneratorExp,
